@@ -180,6 +180,63 @@ def make_zone(rng, size: int, uniform_ttl: bool = False, external_names: bool = 
     return {"origin": origin, "records": recs}
 
 
+# ------------------------------------------------------------------------------- TTL-0 zones
+# Shapes of zones in which the boundary TTL 0 occurs (alone and mixed with non-zero TTLs):
+#   soa    TTL of the SOA record
+#   rest   "zero": every other RRset has TTL 0; "mixed": 0 and non-zero TTLs (both guaranteed)
+#   order  "soa_first"; "ns_before_soa": the origin NS RRset (TTL 0) precedes the SOA in the
+#          origin node; "other_first": a non-origin owner whose first RRset has TTL 0 precedes
+#          the origin node (seen by the unsorted output styles)
+#   minimum  SOA minimum; non-zero except in the one shape whose TTLs all equal the minimum 0
+TTL0_SHAPES = [
+    {"soa": s, "rest": r, "order": o, "minimum": 300}
+    for s in (0, 3600) for r in ("zero", "mixed") for o in ("soa_first", "ns_before_soa", "other_first")
+] + [{"soa": 0, "rest": "zero", "order": "soa_first", "minimum": 0}]
+
+
+def make_ttl0_zone(rng, shape, size: int = 4):
+    """A model zone of the given TTL-0 shape (content from make_zone, TTLs reassigned per RRset)."""
+    z = make_zone(rng, size)
+    recs = z["records"]
+    origin = z["origin"]
+    minimum = shape["minimum"] if shape["minimum"] == 0 else rng.choice([300, 5, 86400])
+    recs[0]["rdata"][-1] = str(minimum)
+    owners = []
+    for r in recs:
+        if r["owner"] != origin and r["owner"] not in owners:
+            owners.append(r["owner"])
+
+    def key(r):
+        return (r["owner"], r["type"], r["rdata"][0] if r["type"] == "RRSIG" else None)
+
+    ttl_of = {}
+    for r in recs:
+        k = key(r)
+        if k not in ttl_of:
+            if r["type"] == "SOA":
+                ttl_of[k] = shape["soa"]
+            elif shape["rest"] == "zero":
+                ttl_of[k] = 0
+            else:
+                ttl_of[k] = rng.choice([0, 0, 300, 1, 86400])
+    if shape["rest"] == "mixed":
+        first_of = {}
+        for r in recs:
+            first_of.setdefault(r["owner"], key(r))
+        ttl_of[(origin, "NS", None)] = 0
+        ttl_of[first_of[owners[0]]] = rng.choice([300, 1, 4294967295])
+        ttl_of[first_of[owners[-1]]] = 0
+    for r in recs:
+        r["ttl"] = ttl_of[key(r)]
+    if shape["order"] == "ns_before_soa":
+        ns = [r for r in recs if r["owner"] == origin and r["type"] == "NS"]
+        recs = ns + [r for r in recs if not (r["owner"] == origin and r["type"] == "NS")]
+    elif shape["order"] == "other_first":
+        last = [r for r in recs if r["owner"] == owners[-1]]
+        recs = last + [r for r in recs if r["owner"] != owners[-1]]
+    return {"origin": origin, "records": recs}
+
+
 # ------------------------------------------------------------------------------- writer
 def _spell_name(n: str, origin: str, relative: bool) -> str:
     if not relative:
@@ -391,8 +448,95 @@ def generate_line(g) -> str:
         f.append(str(g["ttl"]))
     if "cls" in g:
         f.append(g["cls"])
-    f += [g["type"], g["rhs"]]
+    # BIND ARM: "rhs, optionally, quoted string" -- a right-hand side of several fields
+    # (MX, SRV) is one quoted token; the quotes are stripped before substitution
+    f += [g["type"], '"%s"' % g["rhs"] if g.get("quoted") else g["rhs"]]
     return " ".join(f)
+
+
+# ---- $GENERATE with domain names on the right-hand side, below a moved $ORIGIN
+# {n} is the name template; types with several rdata fields need the quoted form
+NAME_RHS = {"CNAME": "{n}", "NS": "{n}", "PTR": "{n}", "DNAME": "{n}", "MX": "10 {n}", "SRV": "1 2 443 {n}"}
+# name forms: {co} = current origin (set by the preceding $ORIGIN), {zo} = zone origin
+LHS_FORMS = {"rel": "m{M}", "rel2": "{M}.rev", "abs_co": "m{M}.{co}", "abs_zo": "m{M}.{zo}", "at": "@"}
+RHS_FORMS = {"rel": "t{M}", "rel2": "t{M}.x", "abs_co": "t{M}.{co}", "abs_zo": "t{M}.{zo}", "abs_out": "t{M}.other.", "at": "@"}
+SUB_ORIGINS = [("example.", "sub"), ("sub.example.org.", "deep.er")]
+
+
+def name_generate(rtype, lhs_form, rhs_form, lmod="$", rmod="$", start=1, stop=2, step=1):
+    g = {"start": start, "stop": stop, "step": step, "lhs": LHS_FORMS[lhs_form].replace("{M}", lmod), "type": rtype,
+         "rhs": NAME_RHS[rtype].replace("{n}", RHS_FORMS[rhs_form].replace("{M}", rmod)),
+         "lhs_form": lhs_form, "rhs_form": rhs_form}
+    if " " in g["rhs"]:
+        g["quoted"] = True
+    return g
+
+
+def fixed_name_generates():
+    """Every type x owner form x target form (owner '@' only where several records at one
+    owner are ordinary: NS, MX)."""
+    out = []
+    for t in NAME_RHS:
+        for lf in LHS_FORMS:
+            if lf == "at" and t not in ("NS", "MX"):
+                continue
+            for rf in RHS_FORMS:
+                out.append(name_generate(t, lf, rf))
+    return out
+
+
+def make_name_generate(rng):
+    start = rng.choice([0, 1, 2, 9, 10, 15, 16, 99, 250])
+    step = rng.choice([1, 1, 2, 3])
+    n = rng.choice([1, 2, 3])
+    stop = start + (n - 1) * step + rng.choice([0, 0, step - 1])
+
+    def modifier():
+        if rng.random() < 0.4:
+            return "$"
+        off = rng.choice([0, 0, 1, 5, 100] + ([-start] if start > 0 else []))
+        form = rng.random()
+        if form < 0.3:
+            return "${%d}" % off
+        if form < 0.6:
+            return "${%d,%d}" % (off, rng.choice([0, 1, 3, 5]))
+        return "${%d,%d,%s}" % (off, rng.choice([0, 1, 3, 5]), rng.choice(["d", "d", "o", "x", "X"]))
+
+    t = rng.choice(list(NAME_RHS))
+    lf = rng.choice([f for f in LHS_FORMS if f != "at" or t in ("NS", "MX")])
+    g = name_generate(t, lf, rng.choice(list(RHS_FORMS)), modifier(), modifier(), start, stop, step)
+    if rng.random() < 0.5:
+        g["ttl"] = rng.choice([0, 60, 86400])
+    if rng.random() < 0.3:
+        g["cls"] = "IN"
+    return g
+
+
+def bind_generate(g, zone_origin: str, cur_origin: str):
+    """Fill the {zo}/{co} placeholders of a name template."""
+    g = dict(g)
+    for k in ("lhs", "rhs"):
+        g[k] = g[k].replace("{co}", cur_origin).replace("{zo}", zone_origin)
+    return g
+
+
+def _abs_text(tok: str, cur_origin: str) -> str:
+    """RFC 1035 5.1: '@' is the current origin; a name not ending in a dot is relative to it."""
+    if tok == "@":
+        return cur_origin
+    if tok.endswith("."):
+        return tok
+    return tok + "." + cur_origin
+
+
+def generate_expected(g, cur_origin: str):
+    """Independent expectation for a (bound) name template: per step the absolute owner text,
+    the leading rdata fields and the absolute text of the domain name ending the rdata."""
+    out = []
+    for i in range(g["start"], g["stop"] + 1, g["step"]):
+        fields = expand_template(g["rhs"], i).split(" ")
+        out.append((_abs_text(expand_template(g["lhs"], i), cur_origin), fields[:-1], _abs_text(fields[-1], cur_origin)))
+    return out
 
 
 def generate_expansion(g, default_ttl_text=None):
